@@ -123,6 +123,11 @@ type brun struct {
 	desc     []string
 	closing  bool
 	allApps  []*bApp
+	fault    faultCase // C09: one fault on side L's transport, or Close / cancellation at a step
+	faulty   bool      // a fault was planned: only the termination oracles apply
+	closeRets [2]int
+	callerCancels []context.CancelFunc
+	callersCancelled bool
 }
 
 type bReporter struct {
@@ -148,7 +153,7 @@ func (a *bApp) Shutdown() {
 		b.s.Fail("export_early_drop", "export.go:(*Conn).releaseExport", fmt.Sprintf("application capability %v was shut down while the application still holds its own reference", a))
 		return
 	}
-	if b.closing {
+	if b.closing || b.faulty {
 		return
 	}
 	for _, h := range b.handles {
@@ -362,7 +367,9 @@ func (b *brun) callerTask(side int, idx int, nops int) {
 	s := b.s
 	me := fmt.Sprintf("%s.caller%d", sideName(side), idx)
 	defer func() { b.done++ }()
-	ctx := context.Background()
+	// (the context of Bootstrap / Resolve: only ever cancelled by the janitor of a fault run)
+	ctx, cancelCaller := context.WithCancel(context.Background())
+	b.callerCancels = append(b.callerCancels, cancelCaller)
 	var held []*bHandle
 	var outs []*bCall
 	live := func() []*bHandle {
@@ -504,6 +511,27 @@ func (b *brun) idleHook(s *simrt.Sched) bool {
 			return true
 		}
 	}
+	// After an injected fault a Conn may legitimately never answer a call (it keeps a placeholder
+	// for a call whose Return message it could not create): callers can always cancel, and a
+	// cancelled call has to resolve.
+	if b.faulty {
+		for _, c := range b.calls {
+			if !c.finished && !c.cancelled && c.cancel != nil && c.nestedOf == nil && c.ans != nil {
+				c.cancelled = true
+				c.cancel()
+				s.Fault("janitor_cancel")
+				return true
+			}
+		}
+		if !b.callersCancelled {
+			b.callersCancelled = true
+			for _, f := range b.callerCancels {
+				f()
+			}
+			s.Fault("janitor_cancel_bootstrap")
+			return true
+		}
+	}
 	return false
 }
 
@@ -641,12 +669,25 @@ func (b *brun) mainTask() {
 	if b.opt.Avoid["pending-resolution-call"] {
 		b.guard = s.Chance("guard-on", 7, 8)
 	}
-	var gone [2]bool
 	for i := 0; i < 2; i++ {
 		b.side[i] = &bSide{idx: i}
+		b.side[i].tr = &SimTransport{name: sideName(i), s: s, inbox: &b.pipe[i], outbox: &b.pipe[1-i]}
+	}
+	// when one end closes its transport the other end reads EOF once its inbox is drained
+	b.side[0].tr.peerGone, b.side[1].tr.peerGone = &b.side[1].tr.closed, &b.side[0].tr.closed
+	switch b.fault.kind {
+	case "newmsg_err":
+		b.side[0].tr.plan.newMsgErrAt = b.fault.at
+	case "send_err":
+		b.side[0].tr.plan.sendErrAt = b.fault.at
+	case "send_stall":
+		b.side[0].tr.plan.sendStallAt = b.fault.at
+	case "recv_err":
+		b.side[0].tr.plan.recvErrAt = b.fault.at
+	case "recv_eof":
+		b.side[0].tr.plan.recvEOFAt = b.fault.at
 	}
 	for i := 0; i < 2; i++ {
-		b.side[i].tr = &SimTransport{name: sideName(i), s: s, inbox: &b.pipe[i], outbox: &b.pipe[1-i], peerGone: &gone[1-i]}
 		b.newApp(i)
 		for k := s.Choice("B-extra-apps", 2); k > 0; k-- {
 			b.newApp(i)
@@ -686,8 +727,48 @@ func (b *brun) mainTask() {
 		n := 2 + s.Choice("B-nops", 9)
 		s.Spawn(fmt.Sprintf("R.caller%d", i), func() { b.callerTask(1, i, n) })
 	}
+	switch b.fault.kind {
+	case "close", "close2":
+		s.Spawn("closer", func() {
+			s.Block("B-close-at", func() bool { return s.Steps() >= b.fault.at || b.closing })
+			if b.closing || b.side[0].closed {
+				return
+			}
+			b.side[0].closed = true
+			s.Fault("close")
+			s.Logf("closer: Close L at step %d", s.Steps())
+			_ = b.side[0].conn.Close()
+			b.closeRets[0]++
+			if b.fault.kind == "close2" {
+				s.Fault("close_again")
+				_ = b.side[0].conn.Close()
+				b.closeRets[0]++
+				// an operation issued after Close must come back with an error, not hang
+				c := b.side[0].conn.Bootstrap(context.Background())
+				ans, rel := c.SendCall(context.Background(), capnp.Send{Method: capnp.Method{InterfaceID: ifaceID}})
+				_, _ = ans.Struct()
+				rel()
+				c.Release()
+			}
+		})
+	case "cancel":
+		s.Spawn("canceller", func() {
+			s.Block("B-cancel-at", func() bool { return s.Steps() >= b.fault.at || b.closing })
+			for _, c := range b.calls {
+				if c.cancel != nil && !c.finished && c.nestedOf == nil {
+					c.cancelled = true
+					c.cancel()
+					s.Fault("cancel")
+				}
+			}
+		})
+	}
 	s.Block("B-workload-done", func() bool { return b.done == b.ntasks })
 	if s.Failed() {
+		return
+	}
+	if b.faulty {
+		b.finishFaulty()
 		return
 	}
 	for i := 0; i < 2; i++ {
@@ -755,7 +836,6 @@ func (b *brun) mainTask() {
 	for k := 0; k < 2; k++ {
 		i := (first + k) % 2
 		b.side[i].closed = true
-		gone[i] = true
 		s.Logf("main: Close %s", sideName(i))
 		_ = b.side[i].conn.Close()
 	}
@@ -784,8 +864,82 @@ func (b *brun) mainTask() {
 	}
 }
 
-func singleB(t *testing.T, tape *simrt.Tape, opt worker.Options) *worker.Outcome {
-	b := &brun{prop: opt.Property, opt: opt, byToken: map[uint64]*bCall{}}
+// finishFaulty: the end of a run in which a fault was planned (C09).  Whatever happened to the calls,
+// they have all resolved (the callers are done); now every implementation returns, both Conns are
+// closed, every capability is released exactly once and nothing is left running or locked.
+func (b *brun) finishFaulty() {
+	s := b.s
+	s.Block("B-impls-done", func() bool {
+		for _, c := range b.calls {
+			if c.starts > 0 && !c.implDone {
+				return false
+			}
+		}
+		return true
+	})
+	if s.Failed() {
+		return
+	}
+	for _, c := range b.calls {
+		if !c.finished {
+			s.Fail("call_unresolved", "question.go:(*question).handleCancel", fmt.Sprintf("call %d never resolved", c.token))
+			return
+		}
+		if c.starts == 0 && c.resErr == nil {
+			s.Fail("result_without_execution", "rpc.go:(*Conn).handleReturn", fmt.Sprintf("call %d resolved successfully (token %d) although no application capability ever saw it", c.token, c.resToken))
+			return
+		}
+	}
+	b.closing = true
+	first := s.Choice("B-close-first", 2)
+	for k := 0; k < 2; k++ {
+		i := (first + k) % 2
+		if b.side[i].closed {
+			continue
+		}
+		b.side[i].closed = true
+		s.Logf("main: Close %s", sideName(i))
+		_ = b.side[i].conn.Close()
+		b.closeRets[i]++
+	}
+	for _, a := range b.allApps {
+		if !a.dropped {
+			a.dropped = true
+			a.client.Release()
+		}
+	}
+	s.Sleep(time.Second)
+	if s.Failed() {
+		return
+	}
+	if b.fault.kind == "close" || b.fault.kind == "close2" {
+		s.Block("B-closer-done", func() bool { return b.closeRets[0] > 0 })
+	}
+	if n := s.SUTPending(); n > 0 {
+		s.Fail("goroutine_leak", "rpc.go:(*Conn).shutdown", fmt.Sprintf("%d goroutine(s) started by the connections are still alive after both were closed: %v", n, s.Stuck(false)))
+		return
+	}
+	if held := s.HeldMutexes(); len(held) > 0 {
+		s.Fail("lock_leak", "rpc.go:(*Conn).Close", fmt.Sprintf("after Close returned a lock is still held: %v", held))
+		return
+	}
+	for i := 0; i < 2; i++ {
+		if v := b.side[i].conn.SimView(); v.SenderLocked {
+			s.Fail("lock_leak", "rpc.go:(*Conn).Close", fmt.Sprintf("after Close returned the sender lock of Conn %s is still held", sideName(i)))
+			return
+		}
+	}
+	for _, a := range b.allApps {
+		if a.shutdown > 1 {
+			s.Fail("shutdown_twice", "rpc.go:(*Conn).shutdown", fmt.Sprintf("application capability %v was released %d times", a, a.shutdown))
+			return
+		}
+	}
+	s.Probe("B_fault_run_terminated_cleanly")
+}
+
+func singleB(t *testing.T, tape *simrt.Tape, opt worker.Options, fc faultCase) (*worker.Outcome, *brun) {
+	b := &brun{prop: opt.Property, opt: opt, byToken: map[uint64]*bCall{}, fault: fc, faulty: fc.kind != ""}
 	body := func(s *simrt.Sched) {
 		b.s = s
 		b.mainTask()
@@ -802,5 +956,5 @@ func singleB(t *testing.T, tape *simrt.Tape, opt worker.Options) *worker.Outcome
 		}
 	}
 	oc.ReplayParams = map[string]string{"topo": "B"}
-	return oc
+	return oc, b
 }
